@@ -6,6 +6,7 @@ from .ipmfile import *
 from .c01 import GENERIC, GENERIC_DEC
 
 PROPERTY = 'C06'
+DEBUG_LOG = ['rt1/cp500/1014', 'rt1/latin_1/vbs']      # obligations that are also explored with debug logging switched on
 PYTHON_O = ['rt1/latin_1/vbs', 'rt1/cp500/1014']      # obligations that are also explored with the modules compiled as under python -O
 ASSUMPTIONS = [
     'messages come from the C01 families (shapes %s), lengths / numeric values / content symbolic; 1..3 records per file' % SHAPES,
